@@ -14,7 +14,7 @@
    one channel's answer should be as a function of that channel's map alone. *)
 From Coq Require Import List ZArith QArith Qabs Qreals Reals Bool Arith.
 Import ListNotations.
-From SV Require Import C06.Peaks C06.Lemmas C07.Global C07.Lemmas C07.GaussR.
+From SV Require Import C06.Peaks C06.Lemmas C06.PatchP C07.Global C07.Lemmas C07.PatchP C07.GaussR C07.GaussE.
 
 Section Rationals.
 Local Open Scope Q_scope.
@@ -106,6 +106,46 @@ Theorem c07_symmetric_patch_zero_offset : forall g P dx dy, antisym g ->
   length P = length g -> Forall (fun row => length row = length g) P ->
   point_symmetric P -> integral_offset g g P = Some (dx, dy) -> dx == 0 /\ dy == 0.
 Proof. exact offset_symmetric. Qed.
+(* ------------------------------------------------------------------------------------
+   EVERY integral_patch_size p >= 1, odd or even (proofs: C07/PatchP.v, C06/PatchP.v).
+   `global_peaks_p` / `global_single_p` take the patch by its size p: Peaks.patch_p / gv_p
+   are the integer-centred window for odd p and, for even p = 2h, the samples at
+   half-pixel positions (mean of the 2x2 cells around each, 0 outside the map). *)
+
+(* for odd p = 2r+1 the size-indexed model IS the radius-indexed model above *)
+Theorem c07_patch_model_odd : forall fixed cms thr r,
+  Forall (fun chans => length chans = length (hd [] cms)) cms ->
+  global_peaks_p fixed cms thr (Some (2 * r + 1)%nat) = global_peaks fixed cms thr (Some r).
+Proof. exact global_peaks_p_odd. Qed.
+
+(* (d) channel independence through the refinement path, for every p *)
+Theorem c07_channel_independence_any_patch : forall fixed cms thr refine,
+  Forall (fun chans => length chans = length (hd [] cms)) cms ->
+  global_peaks_p fixed cms thr refine = map (map (global_single_p fixed thr refine)) cms.
+Proof. exact global_peaks_p_pointwise. Qed.
+
+(* (e) half-patch bound for every p >= 1 outside the selector of F9 *)
+Theorem c07_refine_bound_any_patch_partial : forall fixed thr p m x y v, (1 <= p)%nat ->
+  global_rough fixed m thr = (Some (x, y), v) -> selector_F9_p m y x p = false ->
+  exists px py, global_single_p fixed thr (Some p) m = (Some (px, py), v) /\
+    Qabs (px - inject_Z (Z.of_nat x)) <= (inject_Z (Z.of_nat p) - 1) / 2 /\
+    Qabs (py - inject_Z (Z.of_nat y)) <= (inject_Z (Z.of_nat p) - 1) / 2 /\
+    (inject_Z (Z.of_nat p) - 1) / 2 < inject_Z (Z.of_nat p) / 2.
+Proof. exact global_refine_bound_p. Qed.
+
+Theorem c07_refine_bound_refuted_even :
+  exists m thr p x y v px py, Nat.even p = true /\
+    global_rough true m thr = (Some (x, y), v) /\
+    global_single_p true thr (Some p) m = (Some (px, py), v) /\
+    inject_Z (Z.of_nat p) / 2 < Qabs (px - inject_Z (Z.of_nat x)).
+Proof. exact global_refine_bound_refuted_even. Qed.
+
+(* (f) a window (cells within radius p/2) point-symmetric about the grid cell leaves the
+       peak exactly unmoved, for every p *)
+Theorem c07_symmetric_unmoved_any_patch : forall m x y p px py,
+  window_symmetric m y x (p / 2) -> refine_at_p m x y p = Some (px, py) ->
+  px == inject_Z (Z.of_nat x) /\ py == inject_Z (Z.of_nat y).
+Proof. exact refine_symmetric_unmoved_p. Qed.
 End Rationals.
 
 Print Assumptions c07_value_is_max.
@@ -121,6 +161,11 @@ Print Assumptions c07_refine_bound_refuted.
 Print Assumptions c07_refine_bound_partial.
 Print Assumptions c07_symmetric_unmoved.
 Print Assumptions c07_symmetric_patch_zero_offset.
+Print Assumptions c07_patch_model_odd.
+Print Assumptions c07_channel_independence_any_patch.
+Print Assumptions c07_refine_bound_any_patch_partial.
+Print Assumptions c07_refine_bound_refuted_even.
+Print Assumptions c07_symmetric_unmoved_any_patch.
 
 Section RealsPart.
 Local Open Scope R_scope.
@@ -150,11 +195,40 @@ Theorem c07_gaussian_moves_toward_centre : forall sigma ax ay r, sigma <> 0 -> (
   (0 < ay -> 0 < offy_R (gauss sigma ax ay) r) /\ (ay < 0 -> offy_R (gauss sigma ax ay) r < 0).
 Proof. exact gauss_direction. Qed.
 
+(* every patch size: `offx_P f p` is offx_R f r for p = 2r+1 and, for p = 2h, the same
+   expectation over the 2h x 2h half-pixel samples (samp_R = mean of 2x2 cells, grid
+   k - 1/2); the model's offsets on any rational window, read in R, are offx_P / offy_P *)
+Theorem c07_offset_formula_over_R_any_patch : forall m y x p dx dy,
+  integral_offset (gv_p p) (gv_p p) (patch_p m y x p) = Some (dx, dy) ->
+  Q2R dx = offx_P (fun i j => Q2R (cell0 m (Z.of_nat y + i) (Z.of_nat x + j))) p /\
+  Q2R dy = offy_P (fun i j => Q2R (cell0 m (Z.of_nat y + i) (Z.of_nat x + j))) p.
+Proof. exact offset_Q2R_p. Qed.
+
+(* (g) direction for EVERY patch size p >= 2 (even sizes: pairing sample j with 1 - j) *)
+Theorem c07_bump_moves_toward_centre_any_patch :
+  forall phi : R -> R, (forall t, 0 < phi t) -> (forall s t, 0 <= s -> s < t -> phi t < phi s) ->
+  forall ax ay p, (2 <= p)%nat ->
+  (0 < ax -> 0 < offx_P (bump phi ax ay) p) /\ (ax < 0 -> offx_P (bump phi ax ay) p < 0) /\
+  (ax = 0 -> offx_P (bump phi ax ay) p = 0) /\
+  (0 < ay -> 0 < offy_P (bump phi ax ay) p) /\ (ay < 0 -> offy_P (bump phi ax ay) p < 0) /\
+  (ay = 0 -> offy_P (bump phi ax ay) p = 0).
+Proof. exact bump_direction_p. Qed.
+
+Theorem c07_gaussian_moves_toward_centre_any_patch : forall sigma ax ay p, sigma <> 0 -> (2 <= p)%nat ->
+  (0 < ax -> 0 < offx_P (gauss sigma ax ay) p) /\ (ax < 0 -> offx_P (gauss sigma ax ay) p < 0) /\
+  (ax = 0 -> offx_P (gauss sigma ax ay) p = 0) /\
+  (0 < ay -> 0 < offy_P (gauss sigma ax ay) p) /\ (ay < 0 -> offy_P (gauss sigma ax ay) p < 0) /\
+  (ay = 0 -> offy_P (gauss sigma ax ay) p = 0).
+Proof. exact gauss_direction_p. Qed.
+
 End RealsPart.
 
 Print Assumptions c07_offset_formula_over_R.
 Print Assumptions c07_bump_moves_toward_centre.
 Print Assumptions c07_gaussian_moves_toward_centre.
+Print Assumptions c07_offset_formula_over_R_any_patch.
+Print Assumptions c07_bump_moves_toward_centre_any_patch.
+Print Assumptions c07_gaussian_moves_toward_centre_any_patch.
 
 (* non-vacuity *)
 Example ex_c07_rough :
@@ -171,3 +245,17 @@ Proof. vm_compute. reflexivity. Qed.
 
 Example ex_c07_symmetric : window_symmetric [[0;1;0];[1;4;1];[0;1;0]]%Q 1 1 1.
 Proof. exact ex_window_symmetric. Qed.
+
+(* even patch sizes: symmetric window unmoved (p = 2), mixed valid / invalid channels (p = 4) *)
+Example ex_c07_symmetric_even :
+  window_symmetric [[0;1;0];[1;4;1];[0;1;0]]%Q 1 1 (2 / 2) /\
+  exists px py, refine_at_p [[0;1;0];[1;4;1];[0;1;0]]%Q 1 1 2 = Some (px, py) /\ (px == 1)%Q /\ (py == 1)%Q.
+Proof. split; [exact ex_window_symmetric|]. exact ex_symmetric_even. Qed.
+
+Example ex_c07_mixed_channels_even :
+  match global_peaks_p true [[ [[0;1;0];[0;3;2];[0;0;0]] ; [[0;0;0];[0;0;0];[0;0;0]] ]]%Q (1#2) (Some 4%nat) with
+  | [[ (Some (px, py), v) ; (None, w) ]] =>
+      Qeq_bool px (4 # 3) && Qeq_bool py (5 # 6) && Qeq_bool v 3 && Qeq_bool w 0
+  | _ => false
+  end = true.
+Proof. vm_compute. reflexivity. Qed.
